@@ -121,7 +121,9 @@ def run(c):
     reqs += [gen_history(c.rng, maxlen, stats) for _ in range(n)]
     if not impl:
         return
-    iout = run_lines([impl, "realloc"], reqs, timeout=600)
+    flaky = collections.Counter()
+    iout = rtlib.run_engine(impl, "realloc", reqs, timeout=600, stats=flaky)
+    c.cov["batch_runner_confirmations"] = dict(flaky)
     def nontriv(r, o): return "=blk:1:1:R(" in o
     if model:
         mout = run_lines([model], [r + "\t" + o for r, o in zip(reqs, iout)], timeout=600)
@@ -151,7 +153,7 @@ def run(c):
                                      {"request": r, "impl": o, "model": m.split("\t")[0], "verdict": verdict})
         # outside the precondition (recorded, never judged, not part of the correspondence either)
         outs = [gen_outside(c.rng) for _ in range(200)]
-        oo = run_lines([impl, "realloc"], outs, timeout=120)
+        oo = rtlib.run_engine(impl, "realloc", outs, timeout=120)
         c.cov["outside_precondition"] = {
             "what": "cabi_realloc(ptr, old_len > 0, align, 0): outside the precondition the code documents (debug_assert_ne!); "
                     "outcomes recorded only",
